@@ -877,3 +877,4 @@ EXPLANATION += (' Round 6: ' + 'ESC/negative-on-step is a located deviation (whe
 EXPLANATION += (' Round 7: ' + 'ESC/rejection-scenarios (REJECTIONS table: every documented rejection is reached for exactly the documented inputs; raise sites matched by exception class and the attributes their guard reads, through helpers and literal condition tables; values folded, including _is_power_of_2); FRAME/element-zero.')
 EXPLANATION += (' Rounds 9-10: ' + "FRAME: keyword arguments of add(...) are held to the same table as field-wise stores; stored defaults are folded through the reaching assignment; FRAME/single-at-zero reads a sorted view of the argument's list as the copy's list.")
 EXPLANATION += (' Round 11: ' + 'ESC/change-is-exact (no tolerance on the way to the multiple-tempo / multiple-time-signature rejections); STRETCH/fields-named shared from C13.')
+EXPLANATION += (' Round 12: ' + 'PAIR/every-exit-quantizes; FRAME/every-annotation-quantized.')
